@@ -4,6 +4,9 @@ pub mod rope_ax {
   use vstd::prelude::*;
   use vstd::string::StringSliceAdditionalSpecFns;
   /// a `str` is never longer than isize::MAX bytes (Rust allocation rule); vstd's `str::len` is `spec_bytes().len() as usize`
+  /// a Vec never holds more than usize::MAX elements (`Vec::len` returns usize)
+  pub axiom fn axiom_vec_len_bound<T>(v: &Vec<T>)
+    ensures v@.len() <= usize::MAX;
   pub broadcast axiom fn axiom_str_len_bound(s: &str)
     ensures #[trigger] s.spec_bytes().len() <= usize::MAX;
 }
@@ -131,4 +134,150 @@ pub proof fn lemma_chunks_wf_empty()
   ensures chunks_wf(Seq::<(&str, usize)>::empty())
 {
   reveal(chunks_wf);
+}
+// ---- UTF-8: char boundaries of a piece are char boundaries of the whole text, and vice versa ----
+pub proof fn lemma_str_valid(s: &str)
+  ensures valid_utf8(s.spec_bytes())
+{
+  broadcast use {vstd::string::group_string_axioms, vstd::utf8::group_utf8_lib};
+  encode_utf8_valid_utf8(s@);
+  assert(encode_utf8(s@) == s.spec_bytes());
+}
+pub proof fn lemma_chunks_valid(d: Seq<(&str, usize)>)
+  ensures valid_utf8(chunks_bytes(d))
+  decreases d.len()
+{
+  if d.len() == 0 {
+    let e = Seq::<u8>::empty();
+    encode_utf8_valid_utf8(Seq::<char>::empty());
+    assert(encode_utf8(Seq::<char>::empty()) =~= e) by { broadcast use vstd::utf8::group_utf8_lib; }
+  } else {
+    lemma_chunks_valid(d.drop_last());
+    lemma_str_valid(d.last().0);
+    valid_utf8_concat(chunks_bytes(d.drop_last()), d.last().0.spec_bytes());
+  }
+}
+pub proof fn lemma_chunks_split(d: Seq<(&str, usize)>, k: int)
+  requires 0 <= k <= d.len()
+  ensures chunks_bytes(d) == chunks_bytes(d.take(k)) + chunks_bytes(d.skip(k))
+  decreases d.len()
+{
+  if k == d.len() {
+    assert(d.take(k) =~= d);
+    assert(d.skip(k) =~= Seq::<(&str, usize)>::empty());
+    assert(chunks_bytes(d) =~= chunks_bytes(d) + Seq::<u8>::empty());
+  } else {
+    let dl = d.drop_last();
+    lemma_chunks_split(dl, k);
+    assert(dl.take(k) =~= d.take(k));
+    assert(dl.skip(k) =~= d.skip(k).drop_last());
+    assert(d.skip(k).last() == d.last());
+    assert(chunks_bytes(d) =~= chunks_bytes(d.take(k)) + (chunks_bytes(d.skip(k).drop_last()) + d.last().0.spec_bytes()));
+  }
+}
+/// where a piece starts is a char boundary of the whole text
+pub proof fn lemma_prefix_boundary(d: Seq<(&str, usize)>, k: int)
+  requires 0 <= k <= d.len()
+  ensures is_char_boundary(chunks_bytes(d), chunks_bytes(d.take(k)).len() as int)
+{
+  let b = chunks_bytes(d);
+  let p = chunks_bytes(d.take(k));
+  let q = chunks_bytes(d.skip(k));
+  lemma_chunks_split(d, k);
+  lemma_chunks_valid(d);
+  lemma_chunks_valid(d.skip(k));
+  is_char_boundary_start_end_of_seq(b);
+  if p.len() > 0 && q.len() > 0 {
+    is_char_boundary_start_end_of_seq(q);
+    is_char_boundary_iff_not_is_continuation_byte(q, 0);
+    assert(b[p.len() as int] == q[0]);
+    is_char_boundary_iff_not_is_continuation_byte(b, p.len() as int);
+  } else if q.len() == 0 {
+    assert(b =~= p);
+  }
+}
+/// offset o of piece c is a char boundary of the piece exactly when start_c + o is one of the whole text
+pub proof fn lemma_boundary_transfer(d: Seq<(&str, usize)>, c: int, o: int)
+  requires chunks_wf(d), 0 <= c < d.len(), 0 <= o <= clen(d, c)
+  ensures is_char_boundary(d[c].0.spec_bytes(), o) == is_char_boundary(chunks_bytes(d), d[c].1 + o)
+{
+  let b = chunks_bytes(d);
+  let s = d[c].0.spec_bytes();
+  lemma_chunk_at(d, c);
+  lemma_str_valid(d[c].0);
+  lemma_chunks_valid(d);
+  is_char_boundary_start_end_of_seq(s);
+  if o == 0 {
+    reveal(chunks_wf);
+    lemma_prefix_boundary(d, c);
+  } else if o == clen(d, c) {
+    reveal(chunks_wf);
+    lemma_chunks_take(d, c);
+    lemma_prefix_boundary(d, c + 1);
+  } else {
+    is_char_boundary_iff_not_is_continuation_byte(s, o);
+    is_char_boundary_iff_not_is_continuation_byte(b, d[c].1 + o);
+    assert(b[d[c].1 + o] == b.subrange(d[c].1 as int, d[c].1 + clen(d, c))[o]);
+  }
+}
+/// pieces are laid out in order: starts and ends are monotone, every piece lies inside the text
+pub proof fn lemma_chunks_sorted(d: Seq<(&str, usize)>)
+  requires chunks_wf(d)
+  ensures forall|i: int, j: int| 0 <= i < j < d.len() ==> (#[trigger] d[i]).1 <= (#[trigger] d[j]).1 && d[i].1 + clen(d, i) <= d[j].1 + clen(d, j),
+    forall|i: int| 0 <= i < d.len() ==> (#[trigger] d[i]).1 + clen(d, i) <= chunks_bytes(d).len(),
+{
+  assert forall|i: int, j: int| 0 <= i < j < d.len() implies (#[trigger] d[i]).1 <= (#[trigger] d[j]).1 && d[i].1 + clen(d, i) <= d[j].1 + clen(d, j) by { lemma_chunks_order(d, i, j); }
+  assert forall|i: int| 0 <= i < d.len() implies (#[trigger] d[i]).1 + clen(d, i) <= chunks_bytes(d).len() by { lemma_chunk_at(d, i); }
+}
+/// the arithmetic half of lemma_chunk_at (no byte-sequence facts: cheaper for the solver)
+pub proof fn lemma_chunk_pos(d: Seq<(&str, usize)>, i: int)
+  requires chunks_wf(d), 0 <= i < d.len()
+  ensures d[i].1 + clen(d, i) <= chunks_bytes(d).len(),
+    i + 1 < d.len() ==> d[i + 1].1 == d[i].1 + clen(d, i),
+    i + 1 == d.len() ==> chunks_bytes(d).len() == d[i].1 + clen(d, i),
+    i == 0 ==> d[i].1 == 0,
+{
+  lemma_chunk_at(d, i);
+}
+// ---- packaged steps of the slicing argument (keeps the byte-sequence reasoning out of the function's own query) ----
+pub open spec fn is_cb(b: Seq<u8>, i: int) -> bool { is_char_boundary(b, i) }
+/// a range inside piece c: slicing the piece is slicing the text, and the piece's char boundaries are the text's
+pub proof fn lemma_in_piece(d: Seq<(&str, usize)>, c: int, a: int, b: int)
+  requires chunks_wf(d), 0 <= c < d.len(), d[c].1 <= a <= b <= d[c].1 + clen(d, c)
+  ensures chunks_bytes(d).subrange(a, b) == d[c].0.spec_bytes().subrange(a - d[c].1, b - d[c].1),
+    is_cb(chunks_bytes(d), a) == is_cb(d[c].0.spec_bytes(), a - d[c].1),
+    is_cb(chunks_bytes(d), b) == is_cb(d[c].0.spec_bytes(), b - d[c].1),
+    is_cb(d[c].0.spec_bytes(), 0), is_cb(d[c].0.spec_bytes(), clen(d, c)),
+    b <= chunks_bytes(d).len(),
+{
+  lemma_chunk_at(d, c);
+  lemma_boundary_transfer(d, c, a - d[c].1);
+  lemma_boundary_transfer(d, c, b - d[c].1);
+  lemma_str_valid(d[c].0);
+  is_char_boundary_start_end_of_seq(d[c].0.spec_bytes());
+  let s = d[c].0.spec_bytes();
+  let bb = chunks_bytes(d);
+  assert(bb.subrange(a, b) =~= bb.subrange(d[c].1 as int, d[c].1 + clen(d, c)).subrange(a - d[c].1, b - d[c].1));
+}
+/// gluing: text[a..m) ++ text[m..b) == text[a..b)
+pub proof fn lemma_glue(t: Seq<u8>, a: int, m: int, b: int)
+  requires 0 <= a <= m <= b <= t.len()
+  ensures t.subrange(a, m) + t.subrange(m, b) == t.subrange(a, b), t.subrange(a, a) == Seq::<u8>::empty()
+{
+  assert(t.subrange(a, m) + t.subrange(m, b) =~= t.subrange(a, b));
+  assert(t.subrange(a, a) =~= Seq::<u8>::empty());
+}
+/// the empty text and the empty range
+pub proof fn lemma_empty_range(d: Seq<(&str, usize)>, c: int)
+  requires chunks_wf(d), 0 <= c < d.len()
+  ensures is_cb(chunks_bytes(d), d[c].1 as int), d[c].1 <= chunks_bytes(d).len()
+{
+  lemma_in_piece(d, c, d[c].1 as int, d[c].1 as int);
+}
+pub proof fn lemma_no_piece(d: Seq<(&str, usize)>)
+  requires d.len() == 0
+  ensures chunks_bytes(d).len() == 0, is_cb(chunks_bytes(d), 0)
+{
+  lemma_chunks_valid(d);
+  is_char_boundary_start_end_of_seq(chunks_bytes(d));
 }
